@@ -118,10 +118,13 @@ pub fn c05(tier: &str, seed: u64, known: &[String]) -> Report {
         }
     }
     // scale
-    for _ in 0..1000 {
-        let a = [rng.range(-1.0, 2.0), rng.range(-1.0, 2.0), rng.range(-1.0, 2.0)];
+    for i in 0..3000 {
+        let m = [2.0, 300.0, 1e6][i % 3];
+        let a = [rng.range(-m, m), rng.range(-m, m), rng.range(-m, m)];
         let mut x = Xyz { x: a[0], y: a[1], z: a[2] }; x.scale();
-        rep.check("C05.scale", x.x == a[0] * 100.0 && x.y == a[1] * 100.0 && x.z == a[2] * 100.0, || format!("scale({:e},{:e},{:e})", a[0], a[1], a[2]));
+        rep.check("C05.scale", x.x == a[0] * 100.0 && x.y == a[1] * 100.0 && x.z == a[2] * 100.0, || format!("scale({:e},{:e},{:e}) -> ({:e},{:e},{:e})", a[0], a[1], a[2], x.x, x.y, x.z));
+        let once = [x.x, x.y, x.z]; x.scale();
+        rep.check("C05.scale", x.x == once[0] * 100.0 && x.y == once[1] * 100.0 && x.z == once[2] * 100.0, || format!("scale twice ({:e},{:e},{:e}) -> ({:e},{:e},{:e})", a[0], a[1], a[2], x.x, x.y, x.z));
     }
     rep
 }
